@@ -77,6 +77,7 @@ func NewExprCondition(expression string) (Condition, error) {
 	// options (without AsBool) are kept for the NULL-tolerant variant, whose
 	// result may be NULL (unknown) as well as true or false
 	primary := append(options[:len(options):len(options)], sqlEqualityOptions(false)...)
+	primary = append(primary, sqlIndexOptions()...)
 	program, err := expr.Compile(expression, append(primary, expr.AsBool())...)
 	if err != nil {
 		return nil, err
